@@ -47,7 +47,10 @@ FINDINGS = set(json.loads(os.environ.get('PYVC_FINDINGS', '[]')))
 
 def mk_order(h, side, kind, q, p, symbol='BTC-USDT', status='ACTIVE'):
     qty = q if side == 'buy' else ops.neg(q)
-    return common.mk_order(h, side=side, type=kind, qty=qty, price=p, symbol=symbol, exchange='Sandbox', reduce_only=False,
+    # reduce-only or not is a finite enumeration: the cash-account rules are the same for both
+    # (exits, i.e. sells: a reduce-only buy does not occur on a spot exchange - there is no short position to reduce)
+    ro = True if (side == 'sell' and h.branch(h.bool('reduce_only'))) else False
+    return common.mk_order(h, side=side, type=kind, qty=qty, price=p, symbol=symbol, exchange='Sandbox', reduce_only=ro,
                            status=status)
 
 
